@@ -40,6 +40,25 @@ def build_asan():
     return VH_ASAN
 
 
+PY_TARGET = os.path.join(HARNESS, "target-py")
+PY_INTERP = "/opt/veriftools/pyvenv/bin/python"
+
+
+def build_pyext(dest_dir):
+    """Builds the PYTHON extension module of /repo's current working tree (cargo feature `pybindings`, pyo3 against the tooling
+    venv's interpreter, which has numpy) and copies it to <dest_dir>/constriction.so."""
+    env = dict(os.environ, CARGO_NET_OFFLINE="true", PYO3_PYTHON=PY_INTERP)
+    p = subprocess.run(["cargo", "build", "--offline", "--quiet", "--lib", "--features", "pybindings", "--manifest-path", "/repo/Cargo.toml",
+                        "--target-dir", PY_TARGET], env=env, stdout=subprocess.PIPE, stderr=subprocess.STDOUT, text=True)
+    so = os.path.join(PY_TARGET, "debug", "libconstriction.so")
+    if p.returncode != 0 or not os.path.exists(so):
+        sys.stderr.write(p.stdout[-4000:])
+        raise ToolError("building the Python extension module (--features pybindings) failed")
+    os.makedirs(dest_dir, exist_ok=True)
+    shutil.copy(so, os.path.join(dest_dir, "constriction.so"))
+    return dest_dir
+
+
 class Ctx:
     def __init__(self, prop, tier, seed, level="model_checking"):
         self.prop, self.tier, self.seed, self.level = prop, tier, seed, level
@@ -246,6 +265,9 @@ class Ctx:
             return list(ex.map(lambda j: self.validate_trace(**j), jobs))
 
     def _account_trace(self, module, trace, what, n_events, st, out):
+        held = len(re.findall(r'<<"HELD", ', out))
+        if held:
+            self.classes["trace_steps_with_words_held_back"] = self.classes.get("trace_steps_with_words_held_back", 0) + held
         m = re.search(r'<<"CONFIRMED", (\d+)>>', out)
         if m:
             self.classes["trace_confirmations"] = self.classes.get("trace_confirmations", 0) + int(m.group(1))
@@ -267,6 +289,32 @@ class Ctx:
             os.makedirs(os.path.dirname(keep), exist_ok=True)
             shutil.copy(trace, keep)
         return ok
+
+
+    # ------------------------------------------------------------------ Python front end (impl -> spec)
+    def pydrive(self, coder, n_events, timeout=900):
+        """Runs pyfront/drive_py.py on the extension module built from /repo and returns the trace path.  Disagreements the
+        driver notices itself, and exceptions (Rust panics included) that escape from calls it expects to succeed, are violations."""
+        so_dir = os.path.join(self.work, "pyext")
+        if not os.path.exists(os.path.join(so_dir, "constriction.so")):
+            build_pyext(so_dir)
+        base = os.path.join(self.work, "py_%s" % coder)
+        args = ["timeout", str(timeout), PY_INTERP, os.path.join(VERIF, "pyfront", "drive_py.py"), coder, "--so-dir", so_dir, "--out", base,
+                "--seed", str(self.seed), "--n", str(n_events)]
+        p = subprocess.run(args, cwd=self.work, stdout=subprocess.PIPE, stderr=subprocess.STDOUT, text=True)
+        if p.returncode != 0 or not os.path.exists(base + ".report.json"):
+            if p.returncode < 0 or p.returncode in (134, 139):
+                self.violation("process abort in the Python extension module (rc %d): %s" % (p.returncode, p.stdout[-600:]), {"k": "pydrive", "coder": coder, "seed": self.seed}, cmd="pydrive", mode=coder)
+                return None
+            sys.stderr.write(p.stdout[-3000:])
+            raise ToolError("python driver failed: %s (rc %d)" % (" ".join(args), p.returncode))
+        rep = json.load(open(base + ".report.json"))
+        self.checks += rep["events"]
+        for k, v in rep["classes"].items():
+            self.classes["py_" + k] = self.classes.get("py_" + k, 0) + v
+        for mm in rep["mismatches"]:
+            self.violation("python front end (%s): %s" % (coder, mm["detail"]), {"k": "pydrive", "coder": coder, "seed": self.seed, "context": mm.get("case")}, cmd="pydrive", mode=coder)
+        return base + ".ndjson"
 
     # ------------------------------------------------------------------ results
     UB_PATTERNS = ("unsafe precondition", "process abort", "with overflow", "attempt to ", "loops)", "did not return")
